@@ -43,7 +43,7 @@ var thoroughOps = map[string][]mutOp{
 	"C11": {mutDropLocksOf("connectable")},
 	"C05": {mutSwallowError},
 	"C08": {mutAsyncNext},
-	"C09": {mutCtxBackground},
+	"C09": {mutCtxBackground, mutCtxSubscriber},
 	"C10": {mutDropLocksOf("subjects")},
 	"C12": {mutHoistState},
 	"C13": {mutDropLocksOf("all-but-subscriber"), mutUnsafeCtor},
